@@ -19,7 +19,7 @@ PID = "C08"
 RULE = ("states = (connected sub-tissue, k, resampled?) reached by adding one adjacent cell at a time from every single cell, "
         "de-duplicated on the cell set; non-trivial = has at least one junction; distinct classes = distinct "
         "(cells, interfaces, internal interfaces, k, ne) signatures")
-BOUND = {"quick": "all connected sub-tissues of an 8..9-cell Voronoi base and of square3x3/brick (fixpoint), k in {0,1,2,5}, ne in {2,6}; 6 parser meshes as parsed and resampled",
+BOUND = {"quick": "all connected sub-tissues of an 8..9-cell Voronoi base and of square3x3/brick (fixpoint), k in {0,1,2,5} and mixed per-interface counts (incl. a two-sided cell with one straight side), ne in {2,6}; 6 parser meshes as parsed and resampled",
          "thorough": "all connected sub-tissues of 11- and 12-cell bases and the hand-built maps (fixpoint), k in {0,1,2,5,15}, ne in {2,6}; 13 parser meshes (generated dumps, WKT, tessellations, rasters, shipped dumps and skeleton) as parsed and resampled"}
 ASSUMPTIONS = ["cell membership of a vertex is taken from the cells' vertex cycles (reference), not from Vertex.ownCells",
                "sub-tissues are connected through shared interfaces; tissues whose cells touch only at a point are not generated"]
